@@ -1,9 +1,10 @@
-// Driver for C10 (storage failures fail closed). EXHAUSTIVE: every flow x router x
-// k = 1..(storage calls of the fault-free run) x kind in {error, deadline}, plus the
-// fault-free run itself and "every call of method m fails" for each method of the run.
+// Driver for C10 (storage failures fail closed). EXHAUSTIVE: every flow x router x cold/warm
+// provider x {k-th storage call fails, k = 1..calls of the fault-free run; every call of
+// method m fails} x the value of the failure (kinds()), plus the fault-free run itself.
 package main
 
 import (
+	"context"
 	"encoding/base64"
 	"encoding/json"
 	"fmt"
@@ -11,13 +12,19 @@ import (
 	"net/url"
 	"os"
 	"regexp"
+	"runtime"
 	"sort"
 	"strings"
+	"sync"
 	"time"
 
 	"verifharness/drv"
 	"verifharness/emit"
 	"verifharness/opfix"
+	"verifharness/refstore"
+
+	"github.com/zitadel/oidc/v3/pkg/oidc"
+	"github.com/zitadel/oidc/v3/pkg/op"
 )
 
 // storage methods known to the Gallina model (constructor = "M" + name)
@@ -264,23 +271,63 @@ func (o obs) coq() string {
 
 // ---------------------------------------------------------------- runs
 
+// kindDef is one VALUE an injected failure can have.
+type kindDef struct {
+	coq, tag string
+	mk       func() error // nil = refstore's default ErrInjected
+	quick    bool         // core value: k-th-call plans of every flow variant (both tiers)
+	method   bool         // also used for "every call of m fails"
+	warm     bool         // also run on a warm provider (k-th-call plans)
+	// the remaining (non-core) values run in the thorough tier, on the first variant of each flow
+}
+
+func kinds() []kindDef {
+	wrap := func(f func() error) func() error {
+		return func() error { return fmt.Errorf("storage layer: %w", f()) }
+	}
+	bases := []kindDef{
+		{coq: "BPlain", tag: "plain", mk: func() error { return refstore.ErrInjected }, quick: true, method: true, warm: true},
+		{coq: "BDeadline", tag: "deadline", mk: func() error { return context.DeadlineExceeded }, quick: true, method: true, warm: true},
+		{coq: "BCanceled", tag: "canceled", mk: func() error { return context.Canceled }, quick: true},
+		{coq: "(BOidc EServerError false)", tag: "oidc-server_error", mk: func() error { return oidc.ErrServerError().WithDescription("storage down") }, quick: true, method: true, warm: true},
+		{coq: "(BOidc EInvalidRequest false)", tag: "oidc-invalid_request", mk: func() error { return oidc.ErrInvalidRequest() }, quick: true},
+		{coq: "(BOidc EInvalidClient false)", tag: "oidc-invalid_client", mk: func() error { return oidc.ErrInvalidClient() }, quick: true},
+		{coq: "(BOidc EAccessDenied false)", tag: "oidc-access_denied", mk: func() error { return oidc.ErrAccessDenied() }, quick: true},
+		{coq: "(BOidc EInvalidRequest true)", tag: "oidc-invalid_request-noredirect", mk: func() error { return oidc.ErrInvalidRequestRedirectURI() }, quick: true},
+		{coq: "BDupUserCode", tag: "ErrDuplicateUserCode", mk: func() error { return op.ErrDuplicateUserCode }, quick: true, method: true},
+		{coq: "BInvalidRefresh", tag: "ErrInvalidRefreshToken", mk: func() error { return op.ErrInvalidRefreshToken }, quick: true, method: true},
+	}
+	var out []kindDef
+	for _, b := range bases {
+		k := b
+		k.coq = emit.Ctor("K", b.coq, "false")
+		out = append(out, k)
+	}
+	for _, b := range bases {
+		k := b
+		k.coq = emit.Ctor("K", b.coq, "true")
+		k.tag = "wrapped-" + b.tag
+		k.mk = wrap(b.mk)
+		k.quick = b.tag == "deadline" || b.tag == "oidc-server_error" || b.tag == "ErrDuplicateUserCode" || b.tag == "ErrInvalidRefreshToken"
+		k.method, k.warm = false, false
+		out = append(out, k)
+	}
+	return out
+}
+
 type plan struct {
 	at     int    // k (0 = none)
 	method string // every call of this method ("" = none)
 	raw    string // its journal spelling, which is what refstore.FaultMethod compares with
-	kind   string // error | deadline
+	kind   *kindDef
 }
 
 func (p plan) coq() string {
-	kind := "KError"
-	if p.kind == "deadline" {
-		kind = "KDeadline"
-	}
 	switch {
 	case p.at > 0:
-		return emit.Ctor("PAt", emit.Nat(p.at), kind)
+		return emit.Ctor("PAt", emit.Nat(p.at), p.kind.coq)
 	case p.method != "":
-		return emit.Ctor("PMethod", coqMethod(p.method), kind)
+		return emit.Ctor("PMethod", coqMethod(p.method), p.kind.coq)
 	}
 	return "PNone"
 }
@@ -315,7 +362,7 @@ func run(fl flow, r opfix.Router, in incid, p plan, warm bool) (o obs, prepErr s
 	if warm {
 		var first *opfix.Resp
 		pe, hung := guarded(func() { first = fl.prep(e)() })
-		if pe != "" || hung || first == nil || first.Panic != "" || first.Status >= 400 {
+		if pe != "" || hung || first == nil || first.Panic != "" || (first.Status >= 400 && !fl.rejected) {
 			return obs{}, fmt.Sprint("warm-up run failed: ", pe, hung, first)
 		}
 	}
@@ -323,7 +370,11 @@ func run(fl flow, r opfix.Router, in incid, p plan, warm bool) (o obs, prepErr s
 		return obs{}, fmt.Sprint("preparation: ", pe, hung)
 	}
 	st.ResetJournal()
-	st.FaultAt, st.FaultMethod, st.FaultKind = p.at, p.raw, p.kind
+	st.FaultAt, st.FaultMethod = p.at, p.raw
+	if p.kind != nil {
+		st.SetFaultErr(p.kind.mk())
+	}
+	defer st.SetFaultErr(nil)
 	var resp *opfix.Resp
 	pe, hung := guarded(func() { resp = send() }) // opfix.Do already recovers handler panics
 	if hung {
@@ -334,6 +385,43 @@ func run(fl flow, r opfix.Router, in incid, p plan, warm bool) (o obs, prepErr s
 	}
 	st.FaultAt, st.FaultMethod = 0, ""
 	return observe(e, fl, resp), ""
+}
+
+type job struct {
+	p    plan
+	kth  string
+	o    obs
+	perr string
+}
+
+type group struct {
+	fl     flow
+	r      opfix.Router
+	in     incid
+	warm   bool
+	base   job
+	faults []*job
+}
+
+// parallel runs every job on its own fresh store and provider; results stay in their slots,
+// so the emitted order does not depend on scheduling.
+func parallel(n int, f func(i int)) {
+	var wg sync.WaitGroup
+	next := make(chan int)
+	for w := 0; w < runtime.NumCPU(); w++ {
+		wg.Add(1)
+		go func() {
+			defer wg.Done()
+			for i := range next {
+				f(i)
+			}
+		}()
+	}
+	for i := 0; i < n; i++ {
+		next <- i
+	}
+	close(next)
+	wg.Wait()
 }
 
 func main() {
@@ -354,7 +442,7 @@ func main() {
 		}
 		return string(bs)
 	}
-	runs, skipped := 0, []string{}
+	var groups []*group
 	for _, fl := range flows() {
 		if fl.thorough && cfg.Quick {
 			continue
@@ -363,73 +451,105 @@ func main() {
 			// incidental request values come from the seed; they do not influence the model
 			in := incid{state: word(1 + rnd.IntN(12)), nonce: word(1 + rnd.IntN(12)),
 				verifier: "v" + strings.Repeat("x", 42+rnd.IntN(20)) + fmt.Sprint(rnd.IntN(1000)), user: drv.Pick(rnd, []string{"alice", "bob"})}
-			router := "RProvider"
-			if r == opfix.Legacy {
-				router = "RLegacy"
-			}
 			for _, warm := range []bool{false, true} {
-				base, perr := run(fl, r, in, plan{}, warm)
-				runs++
-				if perr != "" {
-					skipped = append(skipped, fmt.Sprintf("%s %v %s: %s", fl.name, fl.tags, r, perr))
-					continue
+				groups = append(groups, &group{fl: fl, r: r, in: in, warm: warm})
+			}
+		}
+	}
+	// phase 1: the fault-free runs (they fix the range of k and the methods of each flow)
+	parallel(len(groups), func(i int) {
+		g := groups[i]
+		g.base.o, g.base.perr = run(g.fl, g.r, g.in, plan{}, g.warm)
+	})
+	// phase 2: every fault plan
+	ks := kinds()
+	firstSeen := map[string]bool{} // flow names whose first variant has been planned
+	firstOf := map[*group]bool{}
+	var all []*job
+	var owner []*group
+	for _, g := range groups {
+		if g.base.perr != "" {
+			continue
+		}
+		seen := map[string]string{}
+		var ms []string
+		for i, m := range g.base.o.journal {
+			if _, ok := seen[m]; !ok {
+				seen[m] = g.base.o.raw[i]
+				ms = append(ms, m)
+			}
+		}
+		sort.Strings(ms)
+		first := !firstSeen[g.fl.name]
+		if !g.warm {
+			firstOf[g] = first
+		}
+		for ki := range ks {
+			kd := &ks[ki]
+			if g.warm && !kd.warm {
+				continue
+			}
+			if kd.quick || (!cfg.Quick && !g.warm && firstOf[g]) {
+				for k := 1; k <= len(g.base.o.journal); k++ {
+					g.faults = append(g.faults, &job{p: plan{at: k, kind: kd}, kth: g.base.o.journal[k-1]})
 				}
-				emitCase := func(p plan, o obs, kth string) {
-					tags := append([]string{"flow=" + fl.name, "router=" + r.String(), "warm=" + emit.Bool(warm)}, fl.tags...)
-					switch {
-					case p.at > 0:
-						tags = append(tags, "plan=at", fmt.Sprintf("k=%d", p.at), "kind="+p.kind, "method="+kth)
-					case p.method != "":
-						tags = append(tags, "plan=method", "kind="+p.kind, "method="+p.method)
-					default:
-						tags = append(tags, "plan=none")
-					}
-					w.Add(emit.Case{Input: emit.Ctor("Req", router, fl.coq, emit.Bool(warm), p.coq()), Observed: o.coq(), Tags: tags,
-						Human: map[string]any{"status": o.status, "class": o.class, "error": o.oerr, "creds": o.creds, "journal": o.journal, "hit": o.hit, "single": o.single, "panic": o.panicked, "hang": o.hung}})
-					if survey {
-						fmt.Printf("%-9s %-28s %-40s %-22s -> %d %s %q %v hit=%v %v\n", r, fl.name, strings.Join(fl.tags, ","), p.coq(), o.status, o.class, o.oerr, o.creds, o.hit, o.journal)
-					}
+			}
+			if kd.method && (!g.warm || (!cfg.Quick && kd.tag == "plain")) {
+				for _, m := range ms {
+					g.faults = append(g.faults, &job{p: plan{method: m, raw: seen[m], kind: kd}, kth: m})
 				}
-				emitCase(plan{}, base, "")
-				// "every call of method m fails": in the quick tier only where it is not the same run as
-				// a k-th-call plan, i.e. for methods the fault-free run calls more than once
-				seen := map[string]string{}
-				count := map[string]int{}
-				var ms []string
-				for i, m := range base.journal {
-					count[m]++
-					if _, ok := seen[m]; !ok {
-						seen[m] = base.raw[i]
-					}
+			}
+		}
+		if g.warm && g.r == opfix.Legacy { // groups come as provider cold, provider warm, legacy cold, legacy warm
+			firstSeen[g.fl.name] = true
+		}
+		for _, j := range g.faults {
+			all = append(all, j)
+			owner = append(owner, g)
+		}
+	}
+	// coqc cannot print a case id above ~30000 (unary nat): a bigger run could not name its
+	// violating cases, so it is refused here rather than reported as a broken correspondence
+	if len(all)+len(groups) > 29000 {
+		fmt.Fprintf(os.Stderr, "C10: %d cases exceed the id range the case files can report; trim the enumeration\n", len(all)+len(groups))
+		os.Exit(2)
+	}
+	parallel(len(all), func(i int) {
+		g := owner[i]
+		all[i].o, all[i].perr = run(g.fl, g.r, g.in, all[i].p, g.warm)
+	})
+	// emission, in the fixed order
+	var skipped []string
+	runs := 0
+	for _, g := range groups {
+		router := "RProvider"
+		if g.r == opfix.Legacy {
+			router = "RLegacy"
+		}
+		for _, j := range append([]*job{&g.base}, g.faults...) {
+			runs++
+			p, o := j.p, j.o
+			if j.perr != "" {
+				skipped = append(skipped, fmt.Sprintf("%s %v %s warm=%v %s: %s", g.fl.name, g.fl.tags, g.r, g.warm, p.coq(), j.perr))
+				continue
+			}
+			tags := append([]string{"flow=" + g.fl.name, "router=" + g.r.String(), "warm=" + emit.Bool(g.warm)}, g.fl.tags...)
+			switch {
+			case p.at > 0:
+				tags = append(tags, "plan=at", fmt.Sprintf("k=%d", p.at), "kind="+p.kind.tag, "method="+j.kth)
+			case p.method != "":
+				tags = append(tags, "plan=method", "kind="+p.kind.tag, "method="+p.method)
+			default:
+				tags = append(tags, "plan=none")
+			}
+			w.Add(emit.Case{Input: emit.Ctor("Req", router, g.fl.coq, emit.Bool(g.warm), p.coq()), Observed: o.coq(), Tags: tags,
+				Human: map[string]any{"status": o.status, "class": o.class, "error": o.oerr, "creds": o.creds, "journal": o.journal, "hit": o.hit, "single": o.single, "panic": o.panicked, "hang": o.hung}})
+			if survey {
+				kt := ""
+				if p.kind != nil {
+					kt = p.kind.tag
 				}
-				for m := range seen {
-					if !cfg.Quick || count[m] > 1 {
-						ms = append(ms, m)
-					}
-				}
-				sort.Strings(ms)
-				for _, kind := range []string{"error", "deadline"} {
-					for k := 1; k <= len(base.journal); k++ {
-						p := plan{at: k, kind: kind}
-						o, perr := run(fl, r, in, p, warm)
-						runs++
-						if perr != "" {
-							skipped = append(skipped, fmt.Sprintf("%s %v %s k=%d: %s", fl.name, fl.tags, r, k, perr))
-							continue
-						}
-						emitCase(p, o, base.journal[k-1])
-					}
-					for _, m := range ms {
-						p := plan{method: m, raw: seen[m], kind: kind}
-						o, perr := run(fl, r, in, p, warm)
-						runs++
-						if perr != "" {
-							skipped = append(skipped, fmt.Sprintf("%s %v %s m=%s: %s", fl.name, fl.tags, r, m, perr))
-							continue
-						}
-						emitCase(p, o, m)
-					}
-				}
+				fmt.Printf("%-9s %-22s %-36s warm=%v at=%d m=%s kind=%s -> %d %s %q %v hit=%v single=%v %v\n", g.r, g.fl.name, strings.Join(g.fl.tags, ","), g.warm, p.at, p.method, kt, o.status, o.class, o.oerr, o.creds, o.hit, o.single, o.journal)
 			}
 		}
 	}
@@ -440,7 +560,7 @@ func main() {
 		os.Exit(2)
 	}
 	err := w.Close(emit.Meta{Property: "C10", Tier: cfg.Tier, Seed: cfg.Seed, Exhaustive: true,
-		Rule:  "Exhaustive enumeration, not sampled: every flow variant (authorize, callback code / id_token / id_token token, token grants code, refresh, client_credentials, jwt-bearer, token-exchange, device; userinfo, introspect, revoke access/refresh incl. JWT access tokens, device authorization, end session, keys, discovery, ready) x both routers x {cold: fresh provider instance; warm: the same instance has served the whole flow once, fault free, before} x {no fault; k-th storage call fails for k = 1..calls of the fault-free run; every call of method m fails for each m of that run} x kind in {error, deadline}. Fresh store and provider per run, fault-free preparation through the fixture, then ResetJournal + fault plan + the request under test. The seed only varies incidental request values (state, nonce, verifier, user). Non-trivial = a fault plan is set (path != 0); distinct = distinct (flow, router, plan).",
+		Rule:  "Exhaustive enumeration, not sampled: every flow variant (authorize with a registered and with an unregistered redirect_uri, callback code / id_token / id_token token, token grants code, refresh, client_credentials, jwt-bearer, token-exchange, device; userinfo, introspect, revoke access/refresh incl. JWT access tokens, device authorization, end session, keys, discovery, ready) x both routers x {cold: fresh provider instance; warm: the same instance has served the whole flow once, fault free, before} x {no fault; k-th storage call fails for k = 1..calls of the fault-free run; every call of method m fails for each m of that run} x the VALUE of the failure: plain error, context.DeadlineExceeded, context.Canceled, *oidc.Error (server_error, invalid_request, invalid_client, access_denied, redirect-disabled invalid_request), op.ErrDuplicateUserCode, op.ErrInvalidRefreshToken, each bare and wrapped with %w (20 values: 14 core values for the k-th-call plans of every flow variant, 5 of them for the method plans, 3 on warm providers; thorough adds the response_mode variants, the plain-error method plans on warm providers, and runs the 6 remaining wrapped values on the first variant of each flow; the total is kept below the ~30000 case ids coqc can print). Fresh store and provider per run, fault-free preparation through the fixture, then ResetJournal + fault plan + the request under test, every request under a 10 s time-out. The seed only varies incidental request values (state, nonce, verifier, user). Non-trivial = a fault plan is set (path != 0); distinct = distinct (flow, router, warm, plan).",
 		Extra: map[string]any{"runs": runs}})
 	if err != nil {
 		fmt.Fprintln(os.Stderr, err)
